@@ -31,11 +31,13 @@ func PlanCases(prop, tier string, seed int64) (cases []*Case, rule []string) {
 	case "C01":
 		add(n(160, 2000), "build a random batch in a random chunk mode and dump every API answer", func() *Case { return g.BuildObs(false) })
 		add(n(2, 24), "the same with 1030-1330 documents (adaptive multi-chunk postings)", func() *Case { return g.BuildObs(true) })
+		add(n(20, 300), "the byte layout the builder writes (chunks, stored blocks, doc-value chunks) compared with the model's", func() *Case { return g.LayoutCase(false) })
 		add(n(25, 300), "postings looked up through reused lists and iterators (nothing the batch does not imply, also for absent terms)", func() *Case { return g.IterCase(8) })
 	case "C02":
 		add(n(140, 2000), "build 1-4 batches, merge them (also merges of merges) with random deletions and dump the result", func() *Case { return g.MergeObs() })
 		add(n(12, 150), "segments with identical field lists merged without deletions (stored-field byte-copy path across 128-document blocks)", func() *Case { return g.CopyPathMerge() })
 		add(n(2, 20), "a 1030-1230 document segment (several doc-value chunks) merged with deletions", func() *Case { return g.BigMerge() })
+		add(n(20, 300), "the byte layout the merger writes compared with the model's", func() *Case { return g.LayoutCase(false) })
 	case "C03":
 		add(n(140, 2000), "merge with random deletion sets (nil, empty, sparse, dense, everything) and report DocumentNumbers", func() *Case { return g.MergeObs() })
 		add(n(12, 150), "segments with identical field lists merged without deletions (byte-copy path across 128-document blocks): content at the reported numbers", func() *Case { return g.CopyPathMerge() })
@@ -68,6 +70,8 @@ func PlanCases(prop, tier string, seed int64) (cases []*Case, rule []string) {
 	case "C18":
 		add(n(150, 2500), "DocsMatchingTerms over mixed, repeated, unknown-field and unknown-term lists", func() *Case { return g.DocsMatchingCase() })
 	case "C10":
+		add(n(60, 800), "every segment of a random merge tree written by the current code, parsed by the frozen reference's structural dumper and compared with the layout the Coq model of the pinned format predicts", func() *Case { return g.LayoutCase(false) })
+		add(n(2, 20), "the same for a 1030-1430 document segment and its merge (adaptive chunk sizes, several stored blocks and doc-value chunks)", func() *Case { return g.LayoutCase(true) })
 		add(n(30, 400), "build or merge, dump, reload from memory and from a file (the model-compared part: the current code round-trips its own files)", func() *Case { return g.PersistLoad() })
 	case "C12":
 		add(n(20, 300), "merge and persist workloads whose complete output is compared with the model (the fault-free baseline of the fault enumeration)", func() *Case { return g.PersistLoad() })
@@ -124,7 +128,9 @@ func NontrivialTags(prop string) map[string]bool {
 		set("merge", "drops_and_survivors")
 	case "C11":
 		set("repersist_loaded")
-	case "C10", "C12", "C19":
+	case "C10":
+		set("merge", "multi_chunk", "layout_multi_chunk_term", "layout_multi_block", "layout_1hit")
+	case "C12", "C19":
 		set("merge", "multi_chunk", "empty_batch", "zero_survivors")
 	case "C14":
 		set("multi_chunk", "repeated_field", "composite_loc")
